@@ -352,6 +352,7 @@ var mandatory = map[string][]string{
 func cmdReplay(args []string) {
 	fs := flag.NewFlagSet("replay", flag.ExitOnError)
 	prop := fs.String("prop", "", "only report this property")
+	trace := fs.String("trace", "", "print the record of the context with this ID prefix after every step")
 	fs.Parse(args)
 	if fs.NArg() < 1 {
 		fmt.Println("usage: chainmon replay [-prop Cxx] <file>")
@@ -367,6 +368,15 @@ func cmdReplay(args []string) {
 	st := NewStats()
 	mon := NewMon(st)
 	a := NewApp()
+	if *trace != "" {
+		mon.extra = append(mon.extra, func(sc *StepCtx) {
+			for id, rc := range sc.Post.Contexts {
+				if strings.HasPrefix(id, *trace) {
+					fmt.Printf("  [%d] %-40.40s res=%s | state=%s batch=%d/%s req=%d resp=%d expq=%v newq=%v cbs=%d\n", sc.Idx, sc.Step.Desc, okStr(sc.Res), rc.State, rc.BatchCounter, rc.BatchState, rc.BatchRequestCount, rc.BatchResponseCount, sc.Post.ExpQ[id], sc.Post.NewQ[id], len(sc.Res.Callbacks))
+				}
+			}
+		})
+	}
 	Replay(a, &doc.History, mon)
 	n := 0
 	for _, v := range st.Violations {
